@@ -105,8 +105,14 @@ var readOps = []readOp{
 		_, err2 := ucfg.NewFrom(in, o...)
 		return fmt.Sprint(err, err2, sorted(d.GetFields()))
 	}},
-	{"string", func(c *ucfg.Config, o []ucfg.Option) string { s, err := c.String("a", -1, o...); return fmt.Sprint(s, err) }},
-	{"int", func(c *ucfg.Config, o []ucfg.Option) string { s, err := c.Int("b", -1, o...); return fmt.Sprint(s, err) }},
+	{"string", func(c *ucfg.Config, o []ucfg.Option) string {
+		s, err := c.String("a", -1, o...)
+		return fmt.Sprint(s, err)
+	}},
+	{"int", func(c *ucfg.Config, o []ucfg.Option) string {
+		s, err := c.Int("b", -1, o...)
+		return fmt.Sprint(s, err)
+	}},
 	{"uint-float-bool", func(c *ucfg.Config, o []ucfg.Option) string {
 		u, e1 := c.Uint("r", -1, o...)
 		f, e2 := c.Float("b", -1, o...)
@@ -139,10 +145,22 @@ var readOps = []readOp{
 		}
 		return fmt.Sprint(ch.Path("."), ch.IsDict(), ch.IsArray())
 	}},
-	{"has", func(c *ucfg.Config, o []ucfg.Option) string { ok, err := c.Has("o.x", -1, o...); return fmt.Sprint(ok, err) }},
-	{"has-idx", func(c *ucfg.Config, o []ucfg.Option) string { ok, err := c.Has("l", 1, o...); return fmt.Sprint(ok, err) }},
-	{"count-l", func(c *ucfg.Config, o []ucfg.Option) string { n, err := c.CountField("l", o...); return fmt.Sprint(n, err) }},
-	{"count-a", func(c *ucfg.Config, o []ucfg.Option) string { n, err := c.CountField("a", o...); return fmt.Sprint(n, err) }},
+	{"has", func(c *ucfg.Config, o []ucfg.Option) string {
+		ok, err := c.Has("o.x", -1, o...)
+		return fmt.Sprint(ok, err)
+	}},
+	{"has-idx", func(c *ucfg.Config, o []ucfg.Option) string {
+		ok, err := c.Has("l", 1, o...)
+		return fmt.Sprint(ok, err)
+	}},
+	{"count-l", func(c *ucfg.Config, o []ucfg.Option) string {
+		n, err := c.CountField("l", o...)
+		return fmt.Sprint(n, err)
+	}},
+	{"count-a", func(c *ucfg.Config, o []ucfg.Option) string {
+		n, err := c.CountField("a", o...)
+		return fmt.Sprint(n, err)
+	}},
 	{"fields", func(c *ucfg.Config, o []ucfg.Option) string {
 		f := c.GetFields()
 		return fmt.Sprint(len(f), c.HasField("a"), c.IsDict(), c.IsArray())
@@ -194,7 +212,14 @@ func sorted(s []string) []string {
 	return out
 }
 
-var leaves = []interface{}{"${b}", "x${b}", "${robj}", "${rlist}", "${rs}-${rs}", "${o}", "${l}", "${zz:d}", "${a}", 5, "s", nil, true, "${o.x}", "${l.0}", "${n}", "${robj.y}", "${env1}", "${b:+alt}", 1.5}
+var leaves = []interface{}{"${b}", "x${b}", "${robj}", "${rlist}", "${rs}-${rs}", "${o}", "${l}", "${zz:d}", "${a}", 5, "s", nil, true, "${o.x}", "${l.0}", "${n}", "${robj.y}", "${env1}", "${b:+alt}", 1.5,
+	// from firstNumeric on: texts that the integer, unsigned, float, bool, duration parsers read differently (base
+	// prefixes, leading zeros, exponents, signs, blanks, underscores), the same through references / the resolver /
+	// splices, and primitives of every stored kind (read by getters and typed targets of the other kinds)
+	"0640", "0x1F", "${t.num}", "1e3", -3, " 7", "+5", "${rnum}", "-3", "0b101", uint64(1) << 63, "true", "1", "0${b}", "1.5", "2s", 2.0, "0o17",
+	"1_000", false, "NaN", "9223372036854775808", "T", "", "-0", "0x1p4", "1.0", "007", "${t.li.0}", "a.*[", "1h", "0.5"}
+
+const firstNumeric = 20
 
 // Case: which leaf goes where, how many goroutines, how the goroutines are staggered.
 type Case struct {
@@ -207,6 +232,14 @@ type Case struct {
 	// as getter name: how a name is parsed depends on the options of the read (EnableNumKeys, MaxIdx, EscapePath).
 	VOrder []int  `json:"vorder,omitempty"`
 	One    string `json:"one,omitempty"`
+	// KOrder is the order in which the typed readers (one per kind: integer, unsigned, float, bool, string, duration,
+	// regexp) first read the shared config. Leaves 7 and 8 (t.num, t.li.0) are drawn from the numeric half of the pool.
+	KOrder []int `json:"korder,omitempty"`
+	// the destination of the merge-then-write read: Dst[i] is the kind of value (dstKinds) the destination holds under
+	// dstNames[i] before the config is merged into it, Pol the merge policy, In how the config is handed to Merge
+	Dst []int `json:"dst,omitempty"`
+	Pol int   `json:"pol,omitempty"`
+	In  int   `json:"in,omitempty"`
 }
 
 // option variants on top of the options the config was built with
@@ -281,17 +314,26 @@ func genCase(t *rapid.T) Case {
 	c.VOrder = rapid.Permutation([]int{0, 1, 2, 3, 4, 5}).Draw(t, "vorder")
 	c.One = rapid.SampledFrom([]string{"", "+"}).Draw(t, "sign") + rapid.SampledFrom([]string{"", "0", "0x", "0X", "0b", "0B", "0o", "0O"}).Draw(t, "base") +
 		strings.Repeat("0", rapid.IntRange(0, 12).Draw(t, "zeros")) + "1"
+	for i := 0; i < 2; i++ {
+		c.Leaves = append(c.Leaves, rapid.IntRange(firstNumeric, len(leaves)-1).Draw(t, "numleaf"))
+	}
+	c.KOrder = rapid.Permutation([]int{0, 1, 2, 3, 4, 5, 6}).Draw(t, "korder")
+	for _, n := range dstNames {
+		hi := len(dstKinds) - 1
+		if n == "o" || n == "m" || n == "o.z" || n == "m.q" {
+			hi += 4 // see dstKind
+		}
+		c.Dst = append(c.Dst, rapid.IntRange(0, hi).Draw(t, "dst"))
+	}
+	c.Pol = rapid.IntRange(0, len(polNames)-1).Draw(t, "pol")
+	c.In = rapid.IntRange(0, len(inNames)-1).Draw(t, "in")
 	return c
 }
 
 func state(c *ucfg.Config) string { return ucfg.VerifFingerprint(c, true) + ucfg.VerifDeepHash(c) }
 
-func runCase(cs Case, r *runlog.R) error {
-	if len(cs.Leaves) < 7 {
-		r.Discard()
-		return nil
-	}
-	leaf := func(i int) interface{} { return leaves[cs.Leaves[i]%len(leaves)] }
+// mkOpts: the options a configuration is built and read with; the Env is a configuration of its own per call
+func mkOpts() (*ucfg.Config, []ucfg.Option) {
 	res := ucfg.Resolve(func(name string) (string, parse.Config, error) {
 		switch name {
 		case "robj":
@@ -300,11 +342,30 @@ func runCase(cs Case, r *runlog.R) error {
 			return "p,q", parse.DefaultConfig, nil
 		case "rs":
 			return "sv", parse.DefaultConfig, nil
+		case "rnum":
+			return "0x10", parse.NoopConfig, nil
 		}
 		return "", parse.DefaultConfig, ucfg.ErrMissing
 	})
 	env := ucfg.MustNewFrom(map[string]interface{}{"env1": map[string]interface{}{"e": 1}})
 	opts := []ucfg.Option{ucfg.PathSep("."), ucfg.VarExp, res, ucfg.Env(env)}
+	return env, opts
+}
+
+// build constructs the configuration of a case (every call yields an identical, independent one), its Env and the
+// options it was built with.
+func build(cs Case) (*ucfg.Config, *ucfg.Config, []ucfg.Option, error) {
+	leaf := func(i int) interface{} {
+		if i >= len(cs.Leaves) {
+			return "0640"
+		}
+		k := cs.Leaves[i] % len(leaves)
+		if k < 0 {
+			k = 0
+		}
+		return leaves[k]
+	}
+	env, opts := mkOpts()
 	tree := map[string]interface{}{
 		"a": leaf(0), "b": leaf(1), "r": leaf(2), "n": nil,
 		"o": map[string]interface{}{"x": leaf(3), "y": leaf(4), "z": []interface{}{1, map[string]interface{}{"k": leaf(4)}}},
@@ -312,20 +373,33 @@ func runCase(cs Case, r *runlog.R) error {
 		"e": map[string]interface{}{},
 		"m": map[string]interface{}{"p": "${o}", "q": map[string]interface{}{"l": []int{1, 2}}},
 		"k": []interface{}{"k0", "k1", "k2", "k3", "k4", "k5"},
+		"t": map[string]interface{}{"num": leaf(7), "ref": "${t.num}", "li": []interface{}{leaf(8), "${t.num}"}},
 	}
 	c, err := ucfg.NewFrom(tree, opts...)
 	if err != nil {
-		return fmt.Errorf("NewFrom failed: %v", err)
+		return nil, nil, nil, fmt.Errorf("NewFrom failed: %v", err)
 	}
 	// the list k had elements removed: its storage has room behind the last element
 	for i := 0; i < 3; i++ {
 		if _, err := c.Remove("k", 3, opts...); err != nil {
-			return fmt.Errorf("Remove failed: %v", err)
+			return nil, nil, nil, fmt.Errorf("Remove failed: %v", err)
 		}
+	}
+	return c, env, opts, nil
+}
+
+func runCase(cs Case, r *runlog.R) error {
+	if len(cs.Leaves) < 7 {
+		r.Discard()
+		return nil
+	}
+	c, env, opts, err := build(cs)
+	if err != nil {
+		return err
 	}
 	dynamic := false
 	for i := 0; i < 7; i++ {
-		if s, ok := leaf(i).(string); ok && len(s) > 1 && (s[0] == '$' || s[1] == '$') {
+		if s, ok := leaves[cs.Leaves[i]%len(leaves)].(string); ok && len(s) > 1 && (s[0] == '$' || s[1] == '$') {
 			dynamic = true
 		}
 	}
@@ -337,6 +411,22 @@ func runCase(cs Case, r *runlog.R) error {
 		one = "1"
 	}
 	ops := append(append([]readOp(nil), readOps...), namedFields(one))
+	firstExtra := len(ops)
+	// the typed readers, in the order of the case
+	korder := cs.KOrder
+	if len(korder) == 0 {
+		korder = []int{0, 1, 2, 3, 4, 5, 6}
+	}
+	for _, k := range korder {
+		if k >= 0 && k < len(typedOps) {
+			ops = append(ops, typedOps[k])
+		}
+	}
+	ops = append(ops, mergeThenWrite(cs, func() []ucfg.Option {
+		_, wo := mkOpts()
+		return wo
+	}))
+	mtw := len(ops) - 1
 	vorder := cs.VOrder
 	if len(vorder) == 0 {
 		vorder = []int{0}
@@ -351,9 +441,12 @@ func runCase(cs Case, r *runlog.R) error {
 	for _, v := range vorder {
 		vo := variant(opts, v)
 		for i, op := range ops {
-			if v != 0 && i != 0 && i != 1 && i < len(readOps) && !(v >= 4 && readOps[i].name == "merge-source") {
-				continue // the other variants run the two Unpack operations and the named fields (the variants with
-				// field options also the use as merge source)
+			switch {
+			case v == 0:
+			case i == 0 || i == 1 || i == firstExtra-1: // the two Unpack operations and the named fields: all variants
+			case v >= 4 && i < len(readOps) && readOps[i].name == "merge-source", v == 5 && i == mtw: // field options: also as merge source
+			default:
+				continue
 			}
 			rd := reader{op: i, v: v, opts: vo}
 			rd.alone = op.f(c, vo)
@@ -362,6 +455,18 @@ func runCase(cs Case, r *runlog.R) error {
 			}
 			if strings.Contains(rd.alone, "MISMATCH") {
 				return fmt.Errorf("read %q with options %s (variants used before, in this order: %v): %s", op.name, variantNames[v], vorder, rd.alone)
+			}
+			// the result relation: what the reader obtains from the shared config, after all the readers before it,
+			// is what it obtains running alone on a fresh identical configuration (the typed readers and the
+			// merge-then-write always, of the others every eighth, rotating with the case)
+			if i >= firstExtra || (i+len(readers)+cs.Stagger)%8 == 0 {
+				fc, _, fo, err := build(cs)
+				if err != nil {
+					return err
+				}
+				if fresh := op.f(fc, variant(fo, v)); fresh != rd.alone {
+					return fmt.Errorf("read %q (%s) depends on the reads before it: on the shared config it obtains\n%q\nalone on a fresh identical configuration\n%q", op.name, variantNames[v], rd.alone, fresh)
+				}
 			}
 			readers = append(readers, rd)
 		}
@@ -372,6 +477,9 @@ func runCase(cs Case, r *runlog.R) error {
 		if again := ops[rd.op].f(c, rd.opts); again != rd.alone {
 			return fmt.Errorf("read %q (%s) is not repeatable: first %q then %q", ops[rd.op].name, variantNames[rd.v], rd.alone, again)
 		}
+	}
+	if after := state(c); after != before {
+		return fmt.Errorf("the reads, repeated in reverse order, modified the config:\n--- before\n%s\n--- after\n%s", before, after)
 	}
 	if after := state(env); after != envBefore {
 		return fmt.Errorf("reads modified the Env config")
@@ -396,6 +504,9 @@ func runCase(cs Case, r *runlog.R) error {
 			for round := 0; round < cs.Rounds; round++ {
 				for i := range readers {
 					rd := readers[(i+k*cs.Stagger)%len(readers)]
+					if round > 0 && rd.op >= firstExtra {
+						continue // the typed readers and the merge-then-write run one round
+					}
 					if got := ops[rd.op].f(c, rd.opts); got != rd.alone {
 						mu.Lock()
 						diffs = append(diffs, fmt.Sprintf("%s (%s): with other readers running %q, alone %q", ops[rd.op].name, variantNames[rd.v], got, rd.alone))
@@ -415,17 +526,18 @@ func runCase(cs Case, r *runlog.R) error {
 	}
 	r.NonTrivialIf(dynamic)
 	r.Class(fmt.Sprintf("goroutines=%d", g))
+	classes(cs, r)
 	return nil
 }
 
 var subReads = runlog.Register(&runlog.Sub[Case]{
 	Name:    "pure-reads",
-	Rule:    "configs over settings a, b, r, n(nil), o{x,y}, l[2] whose leaves are drawn from 20 values (references, splices, repeated uses, resolver values that parse into objects and lists, references to objects/lists/nil, Env-provided objects, defaults, plain primitives); 22 read operations (Unpack generic/typed/with captured *Config fields, all getters, Child incl. of references/nil/list elements, Has, CountField, GetFields, Path/PathOf/Parent, FlattenedKeys, CompareConfigs, use as Merge/NewFrom source). Sequentially: the stored tree incl. addresses (hook fingerprint) and a reflective deep hash of everything reachable are identical before and after every single read, and each read is repeatable. Then 2-8 goroutines run all reads 1-3 times in staggered order under the race detector; each result must equal the result obtained alone. Non-trivial: the config holds at least one dynamic value (every goroutine evaluates it). Distinct: hash of the case.",
+	Rule:    "configs over settings a, b, r, n(nil), o{x,y,z}, l[2], t{num, ref -> t.num, li[leaf, -> t.num]} whose leaves are drawn from 52 values: references, splices, repeated uses, resolver values that parse into objects and lists, references to objects/lists/nil, Env-provided objects, defaults, stored primitives of every kind (int, negative int, uint64 above MaxInt64, float, integer-valued float, both bools, nil) and strings that the integer/unsigned/float/bool/duration/regexp parsers read differently (leading zeros, 0x/0b/0o prefixes, exponents, hex floats, signs, blanks, underscores, NaN, overflowing int64, empty, durations, an invalid regexp), also behind references, the resolver and splices (t.num and t.li.0 always come from this numeric half). 31 read operations: Unpack generic/typed/with captured *Config fields, all getters, Child incl. of references/nil/list elements, Has, CountField, GetFields, Path/PathOf/Parent, FlattenedKeys, CompareConfigs, use as Merge/NewFrom source; seven typed readers (integer, unsigned, float, bool, string, duration, regexp: the getter of the kind at 9 addresses plus Unpack into single-field targets of the kind and of a narrower type, slices included), first run in a per-case order of kinds, so that every stored kind and every numeric-looking string is read by readers of all other kinds before and after one another; and merge-then-write: the config (directly, below a map key, inside a list) is merged under one of six policies (default, replace, append, prepend, replace + FieldMergeValues, append + FieldReplaceValues/FieldPrependValues) into a destination that holds, per name of the source (a b r n l e k t o o.z m m.q), nothing / a string / an int / a ${reference} / nil / an object / a list / a reference to an object, and then ONLY THE DESTINATION is written to everywhere below the merged names (SetString/SetInt/SetBool by path and index incl. appended list elements, writes through Child handles, a second Merge of more data, Remove by name and index). Sequentially: the stored tree incl. addresses (hook fingerprint) and a reflective deep hash of everything reachable from the config are identical before and after every single read (so a merge source is unchanged after the destination was written to), each read is repeatable in reverse order, and the result relation is explicit: the typed readers and merge-then-write (and a rotating eighth of the others) must obtain on the shared config, after all readers before them, exactly what they obtain alone on a fresh identical configuration. Then 2-8 goroutines run all reads 1-3 times (typed readers and merge-then-write once) in staggered order under the race detector; each result must equal the result obtained alone. Classes: what the typed readers meet (stored kinds; strings by how the parsers agree), merge policy/input, which non-object kinds the destination holds where the source holds objects/lists. Non-trivial: the config holds at least one dynamic value (every goroutine evaluates it). Distinct: hash of the case.",
 	Gen:     genCase,
 	Run:     runCase,
 	Journal: true,
 })
 
-func TestPureReads(t *testing.T) { subReads.Check(t, 3000, 200000) }
+func TestPureReads(t *testing.T) { subReads.Check(t, 2000, 130000) }
 
 func TestReplay(t *testing.T) { runlog.ReplayMain(t) }
